@@ -255,7 +255,60 @@ def check_add_many(c):
     return res
 
 
-CHECKERS = {'tensor': check_tensor, 'add_many': check_add_many}
+def check_long(c):
+    """Trains whose number of elements exceeds 2^63 (no dense tensor exists; any arithmetic on the product of the mode sizes overflows):
+    the error bound through an own QR sweep on the difference train (ref.tt_norm_diff), ranks against the input ranks and the cap."""
+    res = Res()
+    seed = c.get('seed', 0)
+    shape, rk = c['shape'], c['ranks']
+    d = len(shape)
+    if c.get('sigpert'):
+        # a bond of rank 48 ... 64: a rank-4 signal plus a perturbation of relative size 1e-9 filling the other channels; small caps (<= rank / 4)
+        # and the uncapped call must return the 4 channels the accuracy asks for
+        S = space.tt(shape, [1] + [4] * (d - 1) + [1], 'gen', seed, tag=6)
+        Pp = space.tt(shape, [1] + [rk[1] - 4] * (d - 1) + [1], 'gen', seed, tag=7)
+        Yb = teneva.add(S, teneva.mul(Pp, 1e-9))
+        A = ref.dense(Yb)
+        nrm_ = float(np.linalg.norm(A))
+        for eigh in (True, False):
+            for stab in (False, True):
+                for r in (12, 5, 4, 1e12):
+                    res.ev()
+                    case = dict(c, e=1e-3, r=r, stab=stab, eigh=eigh)
+                    Z = _trunc(Yb, 1e-3, r, stab, eigh)
+                    if not res.check(ref.wellformed(Z, shape) is None and ref.finite(Z), 'sigpert.shape', case, 'malformed', ['long']):
+                        continue
+                    err = float(np.linalg.norm(ref.dense(Z) - A))
+                    res.check(all(q <= 4 for q in _ranks(Z)), 'sigpert.minimal', case, lambda: 'ranks %s for a rank-4 signal with a 1e-9 perturbation at e = 1e-3' % _ranks(Z),
+                              ['minimal', 'eigh' if eigh else 'svd'])
+                    res.check(err <= 1e-3 * nrm_, 'sigpert.bound', case, lambda: 'error %.3e > e |Y| = %.3e' % (err, 1e-3 * nrm_), ['bound'])
+        res.nt((tuple(shape), 'sigpert'))
+        return res
+    base = space.tt(shape, rk, 'gen', seed, tag=5)
+    Y = [0.3 * G + np.eye(G.shape[0], G.shape[2])[:, None, :] for G in base]          # identity slices plus a perturbation: norms stay moderate
+    Y2 = teneva.add(Y, Y)                                                                     # doubled ranks, exactly reducible
+    nrm = 2.0 * float(np.sqrt(ref.tt_dot(Y, Y)))
+    for eigh in (True, False):
+        for stab in (False, True):
+            for e, r in ((1e-10, 1e12), (1e-3, 1e12), (1e-6, max(rk)), (1e-6, max(rk) + 1)):
+                res.ev()
+                case = dict(c, e=e, r=r, stab=stab, eigh=eigh)
+                tags = ['eigh' if eigh else 'svd', 'stab' if stab else 'plain', 'long']
+                Z = _trunc(Y2, e, r, stab, eigh)
+                why = ref.wellformed(Z, shape)
+                if not res.check(why is None and ref.finite(Z), 'long.shape', case, lambda: str(why), tags):
+                    continue
+                rz = _ranks(Z)
+                res.check(all(q <= max(1, int(min(r, 10 ** 9))) for q in rz) and all(q <= p for q, p in zip(rz, _ranks(Y2))), 'long.cap', case, lambda: 'ranks %s' % rz, tags)
+                err = ref.tt_norm_diff(Z, Y2)
+                res.check(err <= e * nrm * (1 + 1e-9) + (1e-8 if eigh else 1e-11) * nrm, 'long.bound', case,
+                          lambda: '|Z - Y| = %.3e > e |Y| = %.3e (ranks %s -> %s)' % (err, e * nrm, _ranks(Y2), rz), tags + ['bound'])
+                res.check(all(q <= p for q, p in zip(rz, rk[1:-1])), 'long.minimal', case, lambda: 'ranks %s above the ranks %s of the summand' % (rz, rk[1:-1]), tags + ['minimal'])
+    res.nt((tuple(shape), tuple(rk)))
+    return res
+
+
+CHECKERS = {'long': check_long, 'tensor': check_tensor, 'add_many': check_add_many}
 
 
 def _tensors(tier, seed):
@@ -339,6 +392,9 @@ def strata(tier, seed):
     yield Stratum('truncate d<=3', small, 'tensor', size=len(small), chunk=4,
                   bounds={'d': [2, 3], 'flags': 4, 'caps': '1..rmax+1, 1e12', 'thresholds': 'all breakpoints +- delta, bisected'})
     yield Stratum('truncate d>=4 and wide shapes', big, 'tensor', size=len(big), chunk=4, bounds={'d': [4, 8], 'wide': '[2,150], [150,2], [3,5,6,7], [4]^5, [2]^8, [1,40,1]'})
+    lg = [dict(shape=sh, ranks=[1] + [r_] * (len(sh) - 1) + [1], seed=seed) for sh, r_ in (([8] * 22, 2), ([40] * 13, 2), ([2] * 70, 3), ([10] * 20, 2), ([16] * 17, 2), ([3] * 45, 2))]
+    lg += [dict(shape=[60, 60], ranks=[1, 48, 1], sigpert=True, seed=seed), dict(shape=[70, 66], ranks=[1, 64, 1], sigpert=True, seed=seed), dict(shape=[8, 8, 8], ranks=[1, 8, 8, 1], sigpert=True, seed=seed)]
+    yield Stratum('trains with more than 2^63 elements', lg, 'long', size=len(lg), chunk=1, bounds={'elements': 'up to 40^13', 'd': [13, 70]})
     am = _add_many(tier, seed)
     yield Stratum('add_many', am, 'add_many', size=len(am), chunk=8,
                   bounds={'list length': '1..%d' % (4 if tier == 'quick' else 5), 'items': ['T', 2, -0.5]})
